@@ -8,12 +8,13 @@ import (
 	"time"
 
 	"github.com/Eyevinn/mp4ff/aac"
+	"github.com/Eyevinn/mp4ff/bits"
 	"github.com/Eyevinn/mp4ff/mp4"
 )
 
 func init() {
 	props["C18"] = &propDef{
-		rule: "cases = the complete grid of AudioSpecificConfig values the library supports (13 table + 64 explicit 24-bit frequencies incl. 1, 2^24-1 and table neighbours x 16 channel configurations x object types 2/5/29 x extension frequencies), every ADTS header (13 indices x 8 channel configs x payload 0..8184), ADTS junk prefixes 0..187 bytes (random and ff-heavy; for every length also junk made of sync-word fragments: ff runs, junk ending in ff / ff ff right before the sync word, ff + near-sync byte pairs, dense ff mixes), junk of 188..200 bytes and streams without any sync word (model correspondence), histories (2..8 and whole-grid sequences of ADTS / AudioSpecificConfig encode and decode calls whose results are all held and inspected after the last call), AAC sample entries via SetAACDescriptor, alone and in sequences (several tracks of one init / successive inits, all built before any is inspected or encoded); non-trivial = distinct case with an explicit frequency, or a payload >= 4089, or a non-empty junk prefix, or an HE-AAC object type",
+		rule: "cases = the complete grid of AudioSpecificConfig values the library supports (13 table + 64 explicit 24-bit frequencies incl. 1, 2^24-1 and table neighbours x 16 channel configurations x object types 2/5/29 x extension frequencies), every ADTS header (13 indices x 8 channel configs x payload 0..8184), ADTS junk prefixes 0..187 bytes (random and ff-heavy; for every length also junk made of sync-word fragments: ff runs, junk ending in ff / ff ff right before the sync word, ff + near-sync byte pairs, dense ff mixes), junk of 188..200 bytes and streams without any sync word (model correspondence), histories (2..8 and whole-grid sequences of ADTS / AudioSpecificConfig encode and decode calls whose results are all held and inspected after the last call), AAC sample entries via SetAACDescriptor, alone and in sequences (several tracks of one init / successive inits, all built before any is inspected or encoded; SetAACDescriptor called two or three times with different configurations on one track, fresh or of a decoded init, then written by both encoders and read by both decoders); non-trivial = distinct case with an explicit frequency, or a payload >= 4089, or a non-empty junk prefix, or an HE-AAC object type",
 		gen:  genC18,
 		exec: execC18,
 	}
@@ -362,7 +363,184 @@ func genC18(c *Ctx) {
 		}
 	}
 	genC18AACSeq(c, freqs) // several AAC sample entries built before any of them is inspected
+	genC18AACReset(c, freqs) // SetAACDescriptor called again on a track that already has an AAC sample entry
 	genC18Esds(c, freqs)   // esds descriptor model correspondence (c18model.go)
+}
+
+// ---- AAC sample entries set again: SetAACDescriptor is called two or three times on the SAME track (a fresh one, or the
+// track of an init that was encoded and decoded), each time with another configuration. Whether the library adds a
+// further sample entry or replaces the old one is its business; the clause demands that the entry built by the LAST call
+// is there and decodes back to that call's configuration - in memory and, through both encoders and both decoders, in
+// the written init. (Entries of earlier calls are not demanded.)
+
+// mp4aConfigs lists what every mp4a sample entry of the track's stsd decodes to.
+func mp4aConfigs(trak *mp4.TrakBox) []string {
+	var out []string
+	for _, ch := range trak.Mdia.Minf.Stbl.Stsd.Children {
+		e, ok := ch.(*mp4.AudioSampleEntryBox)
+		if !ok || e.Type() != "mp4a" {
+			continue
+		}
+		// the esds the entry shows (Esds field) and the esds among its children (what is written / was found)
+		all := []*mp4.EsdsBox{}
+		if e.Esds != nil {
+			all = append(all, e.Esds)
+		}
+		for _, ec := range e.Children {
+			if x, ok := ec.(*mp4.EsdsBox); ok && x != e.Esds {
+				all = append(all, x)
+			}
+		}
+		if len(all) == 0 {
+			out = append(out, "no-esds")
+		}
+		for _, esds := range all {
+			dsi := esds.DecConfigDescriptor.DecSpecificInfo
+			asc, err := aac.DecodeAudioSpecificConfig(bytes.NewReader(dsi.DecConfig))
+			if err != nil {
+				out = append(out, "err:"+err.Error())
+				continue
+			}
+			out = append(out, fmt.Sprintf("%d %d %d %d %s %s", asc.ObjectType, asc.ChannelConfiguration, asc.SamplingFrequency,
+				asc.ExtensionFrequency, b01(asc.SBRPresentFlag), b01(asc.PSPresentFlag)))
+		}
+	}
+	return out
+}
+
+func hasCfg(l []string, want string) bool {
+	for _, x := range l {
+		if x == want {
+			return true
+		}
+	}
+	return false
+}
+
+// aacResetRun: cfgs[0] is set on a fresh track; when reopen is set the init is then written and decoded (decoder path
+// picked by sr) and the remaining calls go to the decoded track. Returns "" or the stage that is wrong.
+func aacResetRun(cfgs []aacCfg, reopen, sr, sw bool) (where, got, want string) {
+	decode := func(data []byte, useSR bool) (*mp4.File, error) {
+		if useSR {
+			return mp4.DecodeFileSR(bits.NewFixedSliceReader(data))
+		}
+		return mp4.DecodeFile(bytes.NewReader(data))
+	}
+	encode := func(in *mp4.InitSegment, useSW bool) ([]byte, error) {
+		if useSW {
+			w := bits.NewFixedSliceWriter(int(in.Size()))
+			err := in.EncodeSW(w)
+			return w.Bytes(), err
+		}
+		var buf bytes.Buffer
+		err := in.Encode(&buf)
+		return buf.Bytes(), err
+	}
+	init := mp4.CreateEmptyInit()
+	init.AddEmptyTrack(uint32(cfgs[0].f), "audio", "en")
+	trak := init.Moov.Trak
+	last := ""
+	for k, a := range cfgs {
+		if err := trak.SetAACDescriptor(a.ot, a.f); err != nil {
+			if k == 0 {
+				return "first call", "err:" + err.Error(), a.want()
+			}
+			// a refused further call builds nothing; what was there must still be there
+		} else {
+			last = a.want()
+		}
+		if k == 0 && reopen {
+			data, err := encode(init, sw)
+			if err != nil {
+				return "encode after the first call", "err:" + err.Error(), "bytes"
+			}
+			file, err := decode(data, sr)
+			if err != nil || file.Init == nil || file.Init.Moov.Trak == nil {
+				return "decode after the first call", fmt.Sprintf("err:%v", err), "an init with one track"
+			}
+			init = file.Init
+			trak = init.Moov.Trak
+		}
+	}
+	if g := mp4aConfigs(trak); !hasCfg(g, last) {
+		return "in memory", strings.Join(g, " | "), last
+	}
+	for _, useSW := range []bool{false, true} {
+		data, err := encode(init, useSW)
+		if err != nil {
+			return fmt.Sprintf("encode (slice writer %v)", useSW), "err:" + err.Error(), "bytes"
+		}
+		for _, useSR := range []bool{false, true} {
+			file, err := decode(data, useSR)
+			if err != nil || file.Init == nil || file.Init.Moov.Trak == nil {
+				return fmt.Sprintf("decode (slice writer %v, slice reader %v)", useSW, useSR), fmt.Sprintf("err:%v", err), "an init with one track"
+			}
+			if g := mp4aConfigs(file.Init.Moov.Trak); !hasCfg(g, last) {
+				return fmt.Sprintf("written init (slice writer %v, slice reader %v)", useSW, useSR), strings.Join(g, " | "), last
+			}
+		}
+	}
+	return "", "", ""
+}
+
+func genC18AACReset(c *Ctx, freqs []int) {
+	var dom []aacCfg
+	for _, ot := range []byte{2, 5, 29} {
+		for _, f := range freqs {
+			if f > 0 && f < 1<<23 {
+				dom = append(dom, aacCfg{ot, f})
+			}
+		}
+	}
+	run := func(cfgs []aacCfg, reopen, sr, sw bool, bucket string) {
+		var t []string
+		for _, a := range cfgs {
+			t = append(t, fmt.Sprintf("%d:%d", a.ot, a.f))
+		}
+		req := fmt.Sprintf("aacreset reopen=%s sr=%s sw=%s %s", b01(reopen), b01(sr), b01(sw), strings.Join(t, ","))
+		var where, got, want string
+		if p := safe(func() { where, got, want = aacResetRun(cfgs, reopen, sr, sw) }); p != "" {
+			where, got, want = "panic", p, "no panic"
+		}
+		c.Eval(req)
+		c.Count(bucket)
+		if where != "" {
+			c.Fail("C18-aac-sample-entry-reset", "after SetAACDescriptor was called again on the same track no AAC sample entry decodes back to the configuration of the last call ("+where+")", req, got, want)
+		}
+	}
+	// every ordered pair of object types, over a few table / explicit frequencies, fresh and reopened track
+	pick := []int{}
+	for _, f := range []int{96000, 48000, 44100, 24000, 22050, 7350} {
+		pick = append(pick, f)
+	}
+	for _, o1 := range []byte{2, 5, 29} {
+		for _, o2 := range []byte{2, 5, 29} {
+			for i, f1 := range pick {
+				f2 := pick[(i+1)%len(pick)]
+				for _, reopen := range []bool{false, true} {
+					run([]aacCfg{{o1, f1}, {o2, f2}}, reopen, i%2 == 0, i%3 == 0, "aacreset.pairs")
+					if o1 != o2 {
+						run([]aacCfg{{o1, f1}, {o2, f1}}, reopen, i%2 == 1, i%3 == 1, "aacreset.pairs")
+					}
+				}
+			}
+		}
+	}
+	// random histories of two or three calls over the whole domain
+	for i := 0; i < c.N(300, 5000); i++ {
+		n := 2 + c.R.Intn(2)
+		cfgs := make([]aacCfg, n)
+		for k := range cfgs {
+			cfgs[k] = dom[c.R.Intn(len(dom))]
+			for k > 0 && cfgs[k] == cfgs[k-1] {
+				cfgs[k] = dom[c.R.Intn(len(dom))]
+			}
+		}
+		run(cfgs, c.R.Intn(2) == 0, c.R.Intn(2) == 0, c.R.Intn(2) == 0, "aacreset.random")
+		if i == 0 {
+			c.Sample(fmt.Sprintf("aacreset %v", cfgs))
+		}
+	}
 }
 
 // ---- AAC sample entries in sequences: the clause "an AAC sample entry built from a configuration decodes back to that
